@@ -30,12 +30,12 @@ def catch_with_iterable_(sources: Iterable[Observable[_T]]) -> Observable[_T]:
         successfully.
     """
 
-    sources_ = iter(sources)
-
     def subscribe(
         observer: abc.ObserverBase[_T], scheduler_: abc.SchedulerBase | None = None
     ) -> abc.DisposableBase:
         _scheduler = scheduler_ or CurrentThreadScheduler.singleton()
+
+        sources_ = iter(sources)
 
         subscription = SerialDisposable()
         cancelable = SerialDisposable()
